@@ -156,29 +156,26 @@ func oracleConcurrent(r *Rng, keys []keyPair, tier string) {
 			jobs = append(jobs, j)
 		}
 	}
-	for pass := 0; pass < 2; pass++ {
-		start := make(chan struct{})
-		var wg sync.WaitGroup
-		for _, j := range jobs {
-			wg.Add(1)
-			go j.run(start, &wg)
+	start := make(chan struct{})
+	var wg sync.WaitGroup
+	for _, j := range jobs {
+		wg.Add(1)
+		go j.run(start, &wg)
+	}
+	close(start)
+	wg.Wait()
+	for _, j := range jobs {
+		st["concurrent_rounds_checked"] += j.done
+		if j.key != "" {
+			Viol(j.key, j.desc, c18in{Msg: Hx(j.packed), Signed: j.signed, Alg: j.kp.name, Compress: j.m.Compress, Len: len(j.packed),
+				Detail: "round " + Itoa(j.round) + " of " + Itoa(j.rounds) + ", " + Itoa(len(jobs)) + " goroutines, GOMAXPROCS " + Itoa(runtime.GOMAXPROCS(0)),
+				KeyRR:  j.kp.key.String()})
 		}
-		close(start)
-		wg.Wait()
-		for _, j := range jobs {
-			st["concurrent_rounds_checked"] += j.done
-			if j.key != "" {
-				Viol(j.key, j.desc, c18in{Msg: Hx(j.packed), Signed: j.signed, Alg: j.kp.name, Compress: j.m.Compress, Len: len(j.packed),
-					Detail: "round " + Itoa(j.round) + " of " + Itoa(j.rounds) + ", " + Itoa(len(jobs)) + " goroutines, GOMAXPROCS " + Itoa(runtime.GOMAXPROCS(0)),
-					KeyRR:  j.kp.key.String()})
-				j.key = ""
-			}
-			if pass == 0 && len(j.packed) < 12000 {
-				// the last result of each goroutine against the model
-				emitSignResult(j.m, newSig(j.kp, j.incept, j.until), j.kp, j.packed, j.lastOut, j.lastErr)
-				if j.lastErr == nil && j.lastSig != nil && j.lastT0 == j.lastT1 {
-					emitVerifyResult(j.lastOut, j.lastSig, j.kp, j.kp.key, j.lastVerdict, j.lastT0)
-				}
+		if len(j.packed) < 12000 {
+			// the last result of each goroutine against the model
+			emitSignResult(j.m, newSig(j.kp, j.incept, j.until), j.kp, j.packed, j.lastOut, j.lastErr)
+			if j.lastErr == nil && j.lastSig != nil && j.lastT0 == j.lastT1 {
+				emitVerifyResult(j.lastOut, j.lastSig, j.kp, j.kp.key, j.lastVerdict, j.lastT0)
 			}
 		}
 	}
